@@ -202,7 +202,7 @@ CHECKS = {
         "same printable name make the name table refuse (for all pin lists); an accepted table resolves every name to exactly its pin; renamed "
         "pins are addressable by the new names. The tie replays histories with 30 % invalid calls by Pin object and by name on /repo, "
         "comparing ok/error and the observable state after every call and the final solve, and random pin-name tables with renamings "
-        "(swaps, chains, collisions) through Model.pin / Structure.pin. Renamings include ascending renumberings and swaps, after which every renamed pin must still address its own port; solver parameter defaults are part of the atomicity observation (a rejected add must not reset them). Model.put is addressed by Pin OBJECTS: own pins and foreign pins that merely print like an own pin; accepted iff the object is one of the model's pins (decided in Coq by pin_eqb), a refusal leaves the link tables untouched. On every run harness/translate_names.py also reads Pin (it must remain a frozen dataclass over (basename, mode_name) without hand-written equality or hash), Pin.name, Model.update_pins and Model.pin_mapping from the CURRENT source and coq/templates/NamesSrcProof.v proves them equal to Names.pin_name / update_pins / update_pins o rename_pins for all pin lists and renamings (3 theorems, closed under the global context). A placed structure's name table is read, the structure loses a pin (its neighbour is removed), and the table is read again.",
+        "(swaps, chains, collisions) through Model.pin / Structure.pin. Renamings include ascending renumberings and swaps, after which every renamed pin must still address its own port; solver parameter defaults are part of the atomicity observation (a rejected add must not reset them). Model.put is addressed by Pin OBJECTS: own pins and foreign pins that merely print like an own pin; accepted iff the object is one of the model's pins (decided in Coq by pin_eqb), a refusal leaves the link tables untouched. On every run harness/translate_names.py also reads Pin (it must remain a frozen dataclass over (basename, mode_name) without hand-written equality or hash), Pin.name, Model.update_pins and Model.pin_mapping from the CURRENT source and coq/templates/NamesSrcProof.v proves them equal to Names.pin_name / update_pins / update_pins o rename_pins for all pin lists and renamings (3 theorems, closed under the global context). A placed structure's name table is read, the structure loses a pin (its neighbour is removed), and the table is read again. Likewise harness/translate_wiring.py executes the CURRENT source of Solver.connect symbolically (which tests, in which order, what has been written when the call is refused) and coq/templates/WiringSrcProof.v proves it equal to Wiring.step s (Connect x y) for every solver state and every pair of pins (connect_src_is_step, closed).",
    note="Trusted: Coq kernel + vm_compute; models Wiring.v/Names.v tied by sampled correspondence; harness. Follows the fixed code (F01, F10, F11, F26).",
    technique="Coq proof (invariant + atomicity for all histories; name tables for all pin lists) + vm_compute correspondence of histories with invalid calls + source-to-Gallina translation of the name-table routines proved equal to the model on every run", design="§5 C16, §8"),
  "C20": dict(
